@@ -549,7 +549,7 @@ func GenScenario(t *rapid.T, p *Profile) *Scenario {
 			}
 			if pct(t, p.PGranter, "granter") {
 				tx.Granter = -1
-				if oneIn(t, 6, "anyGranter") {
+				if oneIn(t, 3, "anyGranter") {
 					tx.Granter = 1 + uniRange(t, 0, nAcc-1, "granterIdx")
 				}
 			}
